@@ -1323,6 +1323,52 @@ func AfterFunc(d time.Duration, f func()) *Timer {
 	return &Timer{st: E.newTimer(d, nil, f)}
 }
 
+// NewTimer is time.NewTimer on the virtual clock.
+//go:norace
+func NewTimer(d time.Duration) *Timer {
+	if Native {
+		rt := time.NewTimer(d / NativeScale)
+		return &Timer{C: rt.C, real: rt}
+	}
+	ch := make(chan time.Time, 1)
+	if !active() {
+		return &Timer{C: ch}
+	}
+	st := E.newTimer(d, ch, nil)
+	E.touch()
+	return &Timer{C: ch, st: st}
+}
+
+// Reset re-arms the timer (time.Timer.Reset with Go 1.23 semantics: a stale value is discarded).
+//go:norace
+func (t *Timer) Reset(d time.Duration) bool {
+	if t.real != nil {
+		return t.real.Reset(d / NativeScale)
+	}
+	if t.st == nil || !active() {
+		return false
+	}
+	Point()
+	e := E
+	s := t.st
+	was := !s.fired && !s.stopped
+	if !was {
+		e.timers = append(e.timers, s)
+	}
+	s.fired, s.stopped = false, false
+	if s.fn == nil {
+		s.n = 0
+	}
+	if d < 0 {
+		d = 0
+	}
+	s.at = e.now + d
+	e.timerSeq++
+	s.seq = e.timerSeq
+	e.touch(&s.hb)
+	return was
+}
+
 //go:norace
 func (t *Timer) Stop() bool {
 	if t.real != nil {
